@@ -89,15 +89,26 @@ static void alias_len(long L)
 /* (b) arbitrary overlap: secretbox/box easy+detached (+afternm), crypto_sign, crypto_sign_open; every offset -80..+80 */
 #define ARENA 4096
 static unsigned char skA[64], pkA[32];
+/* offsets tried for a length: every offset in [-80, +80]; every multiple of 64 +-1 up to the length (stride edges of the vector cores and of any
+ * "far enough apart" shortcut); and, for three lengths, EVERY offset at which the buffers still overlap (and 20 beyond) */
+static int OFFS[4200]; static int NOFFS; static int far_res = -1;       /* far_res >= 0: this worker takes every 8th offset */
+static void build_offsets(size_t len)
+{
+    int o, k, lim = (int) len + 20; NOFFS = 0; if (lim > 1000) lim = 1000;
+    if (len == 257 || len == 600 || len == 1100 || (thorough && (len == 1000 || len == 513))) { for (o = -lim; o <= lim; o++) OFFS[NOFFS++] = o; return; }
+    for (o = -80; o <= 80; o++) OFFS[NOFFS++] = o;
+    for (k = 2; 64 * k - 1 <= lim && 64 * k + 1 <= 1000; k++) for (o = -1; o <= 1; o++) { OFFS[NOFFS++] = 64 * k + o; OFFS[NOFFS++] = -(64 * k + o); }
+    if ((int) len > 81) { OFFS[NOFFS++] = (int) len - 1; OFFS[NOFFS++] = -((int) len - 1); OFFS[NOFFS++] = (int) len; OFFS[NOFFS++] = -(int) len; }
+}
 static void overlap_len(long L)
 {
-    size_t len = (size_t) L; int off, ci, f; unsigned char kbuf[32], nonce[24], *m = malloc(len + 16), *dis = malloc(len + 128), tagd[16], *arena = malloc(ARENA + len * 2), *ref_m = malloc(len + 128); char k[200];
-    vf_pat(nonce, 24, PAT_C, 411); vf_pat(m, len, PAT_R1, 412 + len);
+    size_t len = (size_t) L; int off, oi, ci, f; unsigned char kbuf[32], nonce[24], *m = malloc(len + 16), *dis = malloc(len + 128), tagd[16], *arena = malloc(ARENA + len * 2), *ref_m = malloc(len + 128); char k[200];
+    vf_pat(nonce, 24, PAT_C, 411); vf_pat(m, len, PAT_R1, 412 + len); build_offsets(len);
     for (ci = 6; ci < NCONS; ci++) {       /* secretbox x2, box x2 */
         const cons *C = &CONS[ci]; keyctx kc; ull ol;
         cons_keys(C, &kc, kbuf, PAT_R2, (int) len);
         C->enc(dis, &ol, m, len, NULL, 0, nonce, &kc);                                  /* disjoint reference: tag || c */
-        for (off = -80; off <= 80; off++) {
+        for (oi = 0; oi < NOFFS; oi++) { off = OFFS[oi]; if (far_res >= 0 && oi % 8 != far_res) continue;
             unsigned char *base = arena + 1024, *in = base, *out = base + off; int r;
             /* easy: out = in + off */
             memcpy(in, m, len); r = C->enc(out, &ol, in, len, NULL, 0, nonce, &kc); n_eval++; n_nontriv++;
@@ -134,7 +145,7 @@ static void overlap_len(long L)
     }
     /* crypto_sign / crypto_sign_open */
     { ull sl; crypto_sign(dis, &sl, m, len, skA);
-      for (off = -80; off <= 80; off++) {
+      for (oi = 0; oi < NOFFS; oi++) { off = OFFS[oi]; if (far_res >= 0 && oi % 8 != far_res) continue;
           unsigned char *base = arena + 1024, *in = base, *out = base + off; ull ol = 0; int r;
           memcpy(in, m, len); r = crypto_sign(out, &ol, in, len, skA); n_eval++; n_nontriv++;
           if (r != 0 || ol != len + 64 || memcmp(out, dis, len + 64)) { snprintf(k, sizeof k, "crypto_sign/overlap/len=%zu/off=%d", len, off); vf_fail(k, "overlapping signed message differs from the disjoint result"); }
@@ -144,6 +155,7 @@ static void overlap_len(long L)
     free(m); free(dis); free(arena); free(ref_m);
 }
 
+static void overlap_far(long i) { far_res = (int) (i % 8); overlap_len(i < 8 ? 600 : 1100); far_res = -1; }
 static void fin(void) { vf_stat("evaluations", n_eval); vf_stat("nontrivial", n_nontriv); n_eval = n_nontriv = 0; }
 int main(void)
 {
@@ -155,6 +167,7 @@ int main(void)
     vf_parallel(16, 0, 1201, alias_len, fin);
     { static const long BIG[] = { 4095, 4096, 4097, 8193, 16385, 65535, 65537, 131073, 1048577 }; unsigned b; for (b = 0; b < sizeof BIG / sizeof BIG[0]; b++) alias_len(BIG[b]); fin(); }
     vf_parallel(16, 0, (long) MAXL + 1, overlap_len, fin);
+    if (MAXL < 1100) vf_parallel(16, 0, 16, overlap_far, fin);      /* the two longer every-offset lengths that the quick range does not reach */
     vf_sample("crypto_secretbox_detached len=96 with c = m - 47 (output starts 47 bytes below the message, buffers overlap)");
     vf_sample("crypto_box_easy len=200 with c = m + 16 .. m + 80 and c = m - 80 .. m - 1");
     vf_sample("aead_aes256gcm combined encrypt with c == m, every len 0..1200");
